@@ -887,7 +887,7 @@ func (ex *Exec) instr(fr *Frame, st *State, in ssa.Instruction) {
 		ex.storeObj(st, T, ref, zeroVal(T))
 		if writeOnceCaptured(in) {
 			// a variable that closures only read: no callee can change it
-			ex.stableCells = append(ex.stableCells, ref)
+			ex.stableCells = append(ex.stableCells, stableCell{ref: ref, pc: st.pc})
 		}
 	case *ssa.Store:
 		v := ex.value(fr, st, in.Val)
@@ -998,6 +998,7 @@ func (ex *Exec) instr(fr *Frame, st *State, in ssa.Instruction) {
 	case *ssa.Phi:
 		ex.phi(fr, st, in)
 	case *ssa.Call:
+		ex.proofCut(fr, st, in)
 		ex.call(fr, st, in, &in.Call, in)
 	case *ssa.Defer:
 		d := deferred{instr: in}
@@ -1730,4 +1731,90 @@ func initialisedByErrorsNew(g *ssa.Global) bool {
 		}
 	}
 	return n == 1 && okNew
+}
+
+
+// proofCut implements "cutat <callee>[#n] label: expr" of the root contract: just before the (n-th) call of <callee>
+// in the function under verification, expr is an obligation; afterwards the heap, every local variable and every
+// intermediate value are forgotten and only expr (plus the well-formedness of values) is assumed. Like a loop
+// invariant, the clause must carry everything the rest of the function needs.
+func (ex *Exec) proofCut(fr *Frame, st *State, in *ssa.Call) {
+	root := ex.rootFrame
+	if root == nil || root.ct == nil || len(root.ct.Cuts) == 0 || fr != root || ex.specMode != 0 {
+		return
+	}
+	callee := ""
+	if in.Call.IsInvoke() {
+		callee = typeContractKey(in.Call.Value.Type()) + "." + in.Call.Method.Name()
+	} else if fn := in.Call.StaticCallee(); fn != nil {
+		callee = funcKey(fn)
+	}
+	if callee == "" {
+		return
+	}
+	if ex.cutOrdinal == nil {
+		ex.cutOrdinal = map[string]int{}
+	}
+	ex.cutOrdinal[callee]++
+	ord := ex.cutOrdinal[callee]
+	for _, cs := range root.ct.Cuts {
+		want := cs.Callee
+		if k := strings.LastIndex(want, "#"); k >= 0 {
+			if want[k+1:] != fmt.Sprint(ord) {
+				continue
+			}
+			want = want[:k]
+		} else if ord != 1 {
+			continue
+		}
+		if want != callee && !strings.HasSuffix(want, "."+callee) && !strings.HasSuffix(callee, "."+want) {
+			continue
+		}
+		en := ex.newEnv(root, st, ex.preState, root.params)
+		en.pos = in.Pos()
+		t, err := en.evalBool(cs.E)
+		if err != nil {
+			ex.errors = append(ex.errors, fmt.Sprintf("%s: cutat %s: %v", cs.Line, cs.Label, err))
+			continue
+		}
+		o := ex.oblige(fr, st, "pre", "cut:"+cs.Label+"@call:"+callee, t, in.Pos(), "proof cut holds before "+ex.srcLine(in.Pos())+": "+cs.Src)
+		if o != nil {
+			o.Props = cs.Props
+			o.HasQuant = en.quant
+		}
+		ex.callSiteHits["cut:"+cs.Label]++
+		// forget everything
+		ex.note("proof cut %s before the call of %s: heap, locals and intermediate values forgotten, the clause assumed", cs.Label, callee)
+		ex.calleeHavoc++
+		ex.havocAll(st, "proof cut "+cs.Label)
+		ex.calleeHavoc--
+		for a := range st.vars {
+			T := a.Type().(*types.Pointer).Elem()
+			v := ex.freshVal("cut."+a.Comment, T)
+			ex.constrainVal(v)
+			ex.assumeAllocated(st, v)
+			st.vars[a] = v
+		}
+		for k, v := range fr.vals {
+			switch k.(type) {
+			case *ssa.Parameter, *ssa.FreeVar, *ssa.Alloc, *ssa.MakeClosure, *ssa.Const, *ssa.Global, *ssa.Function:
+				continue
+			}
+			if v.Clos != nil || v.T == nil {
+				continue
+			}
+			nv := ex.freshVal("cutv."+k.Name(), v.T)
+			ex.constrainVal(nv)
+			ex.assumeAllocated(st, nv)
+			fr.vals[k] = nv
+		}
+		en2 := ex.newEnv(root, st, ex.preState, root.params)
+		en2.pos = in.Pos()
+		t2, err := en2.evalBool(cs.E)
+		if err == nil {
+			ex.assume(st.pc, t2)
+		}
+		// objects this function has not written to satisfy their type invariants (as after any call)
+		ex.reassumeRootInvs(st)
+	}
 }
